@@ -499,7 +499,9 @@ def _suite_gen_beat(rng, tier, shard, nshards):
     # p_score: the existing streams (regular / degenerate / loose pairs, every threshold incl. > 1 where the slice start wraps
     # around, 0 and negative ones) asked of the generated definition ...
     for name, real_op in (("beat.p_score", "beat.p_score"), ("beat.p_score_literal", "beat.p_score_literal")):
-        for c in BS.SUITES[name](rng, tier, shard, nshards):
+        for j, c in enumerate(BS.SUITES[name](rng, tier, shard, nshards)):
+            if tier == "quick" and j >= 40:
+                break                                        # (per shard; the full-correlation model is quadratic in the span)
             if c.op == real_op:
                 yield Case("gen.beat", ["p_score"] + list(c.args), c.call, tol=c.tol, tag="gen p_score " + c.tag,
                            info=dict(c.info or {}, op="gen.beat", fn="p_score"), nontrivial=c.nontrivial, post=c.post)
